@@ -651,7 +651,7 @@ func synthCert(g *RNG, idx []string) *ObjSpec {
 				case 1:
 					return dseq(ctxPrim(1, []byte(pick(g, []string{"example.com", "a@example.com", ".example.org"}))))
 				case 2:
-					return dseq(ctxPrim(6, []byte(pick(g, []string{".example.com", "example.com"}))))
+					return dseq(ctxPrim(6, []byte(pick(g, []string{".example.com", "example.com", "?example.com", "?", "?.*.example.com", "*.example.com", "??.example.com", "", "."}))))
 				}
 				ipm := pick(g, [][]byte{{10, 0, 0, 0, 255, 0, 0, 0}, {11, 22, 33, 44, 255, 255, 0, 0}, {192, 168, 1, 77, 255, 255, 255, 0}, {8, 8, 8, 8, 255, 255, 255, 255},
 					{100, 64, 3, 1, 255, 192, 0, 0}, {0, 0, 0, 0, 0, 0, 0, 0}, {203, 0, 113, 9, 255, 255, 255, 128},
